@@ -4,7 +4,40 @@ SOURCE_COMMITS = []
 NOTES = ("Every claimed property: theorems in coq/Properties/<id>.v (only `exact` of lemmas proved in coq/Proofs, each followed by "
          "Print Assumptions), model in coq/Model, correspondence drivers in harness/. Known findings: KNOWN_FINDINGS.jsonl. See DESIGN.md.")
 NOT_APPLICABLE = {}
+HUB_NOTE = ("trusted: Coq kernel + vm_compute; the granularity of Model/Hub.v (critical sections and subscriber methods atomic, by the reduction argument "
+            "in its header); bbolt by contract; Go drivers. The tie to the code is sequential handler-level histories (agreement with the model and with the "
+            "abstract sequential spec); interleavings are covered by the theorems, and by steered schedules where a stage says so.")
 META = {
+    "C01": {
+        "text": "Coq theorem C01_only_matching_is_sent over the hub transition system (publishers, subscriber handlers with registration / history scan / queue / "
+                "go-live, Close, crashes; every schedule; both transports): everything ever sent to or queued for a subscriber matches it; with "
+                "C01_private_needs_claim / C01_anonymous_never_private (a private update matches only through verified subscribe selectors) and C02_private_flag. "
+                "Tied to the code by handler-level histories with private updates, anonymous / claimed subscribers, replay and subscription events.",
+        "design_ref": "DESIGN.md §5 C01", "note": HUB_NOTE,
+        "technique": "Coq proof (inductive invariant of the hub LTS over all schedules) + differential correspondence of handler-level histories evaluated in Coq",
+    },
+    "C09": {
+        "text": "Coq theorems over the hub transition system with a crash action anywhere in the schedule: acknowledged updates are committed, every database "
+                "entry is the committed update of its sequence number for ever, the newest update is always retained, a publish is acknowledged only after its "
+                "update is stored, a crash loses nothing committed and lastSeq/last id are recovered. Partial: bbolt's transaction is one atomic durable step "
+                "of the model (trusted); the tie to the code is graceful restarts in handler-level histories, kill-point enumeration is not built yet.",
+        "design_ref": "DESIGN.md §5 C09", "note": HUB_NOTE,
+        "technique": "Coq proof (inductive invariant with crash transitions) + differential correspondence of histories with restarts evaluated in Coq",
+    },
+    "C15": {
+        "text": "Coq theorems over the hub transition system: after Close's critical section every indexed subscriber's channel is closed for ever (its handler "
+                "sees the end), operations after Close began are refused without effect, Close is idempotent, disconnected = closed for every subscriber in "
+                "every reachable state; reopening keeps the history (C09). Tied to the code by histories with Hub.Stop, refused publishes/subscribes and restarts.",
+        "design_ref": "DESIGN.md §5 C15", "note": HUB_NOTE,
+        "technique": "Coq proof (inductive invariant of the hub LTS over all schedules) + differential correspondence of handler-level histories evaluated in Coq",
+    },
+    "C20": {
+        "text": "Coq theorems over the hub transition system: in every reachable state the gauge equals the number of handlers between successful registration and "
+                "the end of shutdown; at every step updates_total grows exactly with acknowledged publishes and subscribers_total exactly with registrations. "
+                "Tied to the code by reading the real Prometheus registry after every operation of handler-level histories.",
+        "design_ref": "DESIGN.md §5 C20", "note": HUB_NOTE,
+        "technique": "Coq proof (inductive invariant of the hub LTS over all schedules) + differential correspondence of metrics after every operation",
+    },
     "C13": {
         "text": "Coq theorems over a transition system of localsubscriber.go with one step per lock operation / atomic access / channel operation, for any number "
                 "of threads, any method sequences and every schedule: no step other than a mutex acquisition or the consumer's receive can block; critical sections "
